@@ -215,15 +215,11 @@ theorem segVar_scale (x : ℕ → ℝ) (a : ℝ) (s e : ℕ) :
   simp only [segVar, h1, h2]
   ring
 
-/-- **C12, scale, detector level**: PELT with the univariate Gaussian cost returns the same changepoints on
-    `a · x` (`a > 0`) as on `x`, provided the empirical variances of the intervals it reads are at or above
-    the floor before and after rescaling (at the floor the cost is not scale-equivariant) -/
-theorem pelt_gauss_scale_invariant (x : ℕ → ℝ) (a pen : ℝ) (ha : 0 < a) (m n : ℕ) (hm : 1 ≤ m) (hn : 2 * m ≤ n)
-    (habove : ∀ s e, s + m ≤ e → e ≤ n → varFloorConst ≤ segVar x s e ∧ varFloorConst ≤ a ^ 2 * segVar x s e) :
-    (runPeltCode (gaussTable (fun i => a * x i)) pen m n).2 = (runPeltCode (gaussTable x) pen m n).2 := by
-  refine (runPeltCode_affine (gaussTable x) (gaussTable (fun i => a * x i)) (Real.log (a ^ 2)) pen m n hm hn ?_).1
-  intro s e hse hen
-  obtain ⟨h1, h2⟩ := habove s e hse hen
+/-- the univariate Gaussian cost of `a · x` (`a > 0`) is that of `x` plus `(e − s) log a²`, when the empirical
+    variance is at or above the floor before and after rescaling -/
+theorem gaussTable_scale (x : ℕ → ℝ) (a : ℝ) (ha : 0 < a) (s e : ℕ)
+    (h1 : varFloorConst ≤ segVar x s e) (h2 : varFloorConst ≤ a ^ 2 * segVar x s e) :
+    gaussTable (fun i => a * x i) s e = gaussTable x s e + Real.log (a ^ 2) * ((e : ℝ) - s) := by
   have hf : (0 : ℝ) < varFloorConst := by unfold varFloorConst; norm_num
   have hv : 0 < segVar x s e := lt_of_lt_of_le hf h1
   have ha2 : (0 : ℝ) < a ^ 2 := by positivity
@@ -242,6 +238,15 @@ theorem pelt_gauss_scale_invariant (x : ℕ → ℝ) (a pen : ℝ) (ha : 0 < a) 
     Real.log_mul ha2.ne' (by positivity)]
   ring
 
+/-- **C12, scale, detector level**: PELT with the univariate Gaussian cost returns the same changepoints on
+    `a · x` (`a > 0`) as on `x`, provided the empirical variances of the intervals it reads are at or above
+    the floor before and after rescaling (at the floor the cost is not scale-equivariant) -/
+theorem pelt_gauss_scale_invariant (x : ℕ → ℝ) (a pen : ℝ) (ha : 0 < a) (m n : ℕ) (hm : 1 ≤ m) (hn : 2 * m ≤ n)
+    (habove : ∀ s e, s + m ≤ e → e ≤ n → varFloorConst ≤ segVar x s e ∧ varFloorConst ≤ a ^ 2 * segVar x s e) :
+    (runPeltCode (gaussTable (fun i => a * x i)) pen m n).2 = (runPeltCode (gaussTable x) pen m n).2 :=
+  (runPeltCode_affine (gaussTable x) (gaussTable (fun i => a * x i)) (Real.log (a ^ 2)) pen m n hm hn
+    (fun s e hse hen => gaussTable_scale x a ha s e (habove s e hse hen).1 (habove s e hse hen).2)).1
+
 /-- **C12, scale, detector level, multivariate**: PELT with the multivariate Gaussian cost (from the rows)
     returns the same changepoints on `a · x`, provided the sample covariances of the intervals it reads
     are non-singular (otherwise the code raises) -/
@@ -253,6 +258,52 @@ theorem pelt_gcov_scale_invariant {p : ℕ} (x : ℕ → Fin p → ℝ) (a pen :
   intro s e hse hen
   rw [gcovCost_scale x a ha s e (hdet s e hse hen)]
   ring
+
+/-! ### composed statements: moving window and seeded binary segmentation on rescaled data -/
+
+/-- the change score derived from a cost, `C(s,e) − C(s,k) − C(k,e)`, as the detectors' score table -/
+def costChange (cost : ℕ → ℕ → ℝ) : ℕ → ℕ → ℕ → ℝ := fun s k e => cost s e - cost s k - cost k e
+
+/-- **C12, lift of the scale symmetry to moving window and seeded binary segmentation**: when the cost
+    changes by a term proportional to the segment length on the intervals these detectors read (at least
+    `m` rows), the derived change score is unchanged there, hence the moving-window score curve and
+    changepoints (bandwidth `m`) and the seeded-binary-segmentation table and changepoints are unchanged -/
+theorem mw_sbs_output_invariant_under_length_proportional_terms (cost cost' : ℕ → ℕ → ℝ) (c : ℝ) (m n : ℕ)
+    (h : ∀ s e, s + m ≤ e → e ≤ n → cost' s e = cost s e + c * ((e : ℝ) - s))
+    (thr : ℝ) (mdi : ℕ) (ivs : List (ℕ × ℕ)) (hivs : ∀ iv ∈ ivs, iv.2 ≤ n) :
+    mwCpts (mwScores (costChange cost') n m 0) n thr mdi = mwCpts (mwScores (costChange cost) n m 0) n thr mdi ∧
+      runSbs (costChange cost') m thr ivs = runSbs (costChange cost) m thr ivs := by
+  have hcs : ∀ s k e, s + m ≤ k → k + m ≤ e → e ≤ n → costChange cost' s k e = costChange cost s k e := by
+    intro s k e h1 h2 h3
+    simp only [costChange]
+    rw [h s e (by omega) h3, h s k h1 (by omega), h k e h2 h3]
+    have : ((e : ℝ) - s) = ((k : ℝ) - s) + ((e : ℝ) - k) := by ring
+    rw [this]; ring
+  constructor
+  · rw [mwScores_congr_read (costChange cost') (costChange cost) n m
+      (fun s k e h1 h2 h3 => hcs s k e (by omega) (by omega) h3)]
+  · exact runSbs_congr_read (costChange cost') (costChange cost) m n thr ivs hivs hcs
+
+/-- **C12, scale, detector level**: moving window and seeded binary segmentation with the univariate
+    Gaussian cost are unchanged by rescaling the data (variances at or above the floor before and after) -/
+theorem mw_sbs_gauss_scale_invariant (x : ℕ → ℝ) (a : ℝ) (ha : 0 < a) (m n : ℕ)
+    (habove : ∀ s e, s + m ≤ e → e ≤ n → varFloorConst ≤ segVar x s e ∧ varFloorConst ≤ a ^ 2 * segVar x s e)
+    (thr : ℝ) (mdi : ℕ) (ivs : List (ℕ × ℕ)) (hivs : ∀ iv ∈ ivs, iv.2 ≤ n) :
+    mwCpts (mwScores (costChange (gaussTable (fun i => a * x i))) n m 0) n thr mdi =
+        mwCpts (mwScores (costChange (gaussTable x)) n m 0) n thr mdi ∧
+      runSbs (costChange (gaussTable (fun i => a * x i))) m thr ivs = runSbs (costChange (gaussTable x)) m thr ivs :=
+  mw_sbs_output_invariant_under_length_proportional_terms _ _ (Real.log (a ^ 2)) m n
+    (fun s e hse hen => gaussTable_scale x a ha s e (habove s e hse hen).1 (habove s e hse hen).2) thr mdi ivs hivs
+
+/-- … and with the multivariate Gaussian cost (non-singular sample covariances on the intervals read) -/
+theorem mw_sbs_gcov_scale_invariant {p : ℕ} (x : ℕ → Fin p → ℝ) (a : ℝ) (ha : 0 < a) (m n : ℕ)
+    (hdet : ∀ s e, s + m ≤ e → e ≤ n → 0 < (covMat x s e).det)
+    (thr : ℝ) (mdi : ℕ) (ivs : List (ℕ × ℕ)) (hivs : ∀ iv ∈ ivs, iv.2 ≤ n) :
+    mwCpts (mwScores (costChange (gcovCost (fun i j => a * x i j))) n m 0) n thr mdi =
+        mwCpts (mwScores (costChange (gcovCost x)) n m 0) n thr mdi ∧
+      runSbs (costChange (gcovCost (fun i j => a * x i j))) m thr ivs = runSbs (costChange (gcovCost x)) m thr ivs :=
+  mw_sbs_output_invariant_under_length_proportional_terms _ _ (p * Real.log (a ^ 2)) m n
+    (fun s e hse hen => by rw [gcovCost_scale x a ha s e (hdet s e hse hen)]; ring) thr mdi ivs hivs
 
 /-! ### time reversal -/
 
